@@ -105,6 +105,15 @@ class XNS:
         return ForAll([j], Implies(And(j >= 0, j < Length(z)), z[j] >= toint(lo)))
 
     @staticmethod
+    def all_tags_valid(ex, tags):
+        """every (class, format, number) record is a valid tag"""
+        i = Int('atv.i')
+        c, f, n = tags.cols
+        return ForAll([i], Implies(And(i >= 0, i < Length(c)),
+                                   And(Or(c[i] == 0, c[i] == 64, c[i] == 128, c[i] == 192),
+                                       Or(f[i] == 0, f[i] == 32), n[i] >= 0)))
+
+    @staticmethod
     def seq(ex, *items):
         return any_(mk_seq(items))
 
@@ -157,44 +166,77 @@ class XNS:
 
     @staticmethod
     def bit_length(v):
-        """int.bit_length: result r >= 0; v == 0 <=> r == 0; else 2**(r-1) <= |v| < 2**r.
-        The axiom instance is *assumed* on the current path (callers pass the executor through
-        INT_METHODS); here we only build the term, see bit_length_axioms()."""
+        """int.bit_length (term only; the defining facts are bit_length_axioms)."""
         return bit_length_f(v)
 
     @staticmethod
     def bit_length_axioms(v):
+        """CPython docs: for nonzero x, 2**(k-1) <= abs(x) < 2**k; bit_length(0) == 0; plus the derived
+        linear facts bit_length(a) - 1 <= bit_length(a - 1) <= bit_length(a) for a > 0 (A-BUILTIN,
+        cross-checked against CPython on every run)."""
         r = bit_length_f(v)
         a = If(v >= 0, v, -v)
-        return And(r >= 0, (v == 0) == (r == 0),
+        return And(r >= 0, (v == 0) == (r == 0), bit_length_f(-v) == r, bit_length_f(a) == r,
                    Implies(v != 0, And(pow2(r - 1) <= a, a < pow2(r), pow2(r) == 2 * pow2(r - 1))),
-                   bit_length_f(-v) == r)
+                   Implies(a > 0, And(bit_length_f(a - 1) <= r, r <= bit_length_f(a - 1) + 1,
+                                      bit_length_f(a - 1) >= 0, (a == 1) == (bit_length_f(a - 1) == 0))),
+                   Implies(a < 128, r <= 7), Implies(a >= 128, r >= 8))
+
+    @staticmethod
+    def sbits(ex, v):
+        """number of bits of the minimal two's complement representation of v (X.690 8.3)"""
+        v = toint(v)
+        a = If(v >= 0, v, -v - 1)
+        ex.assume(XNS.bit_length_axioms(v))
+        ex.assume(XNS.bit_length_axioms(a))
+        return bit_length_f(a) + 1
+
+    @staticmethod
+    def twos_len(ex, v):
+        """length of the minimal two's complement contents octets (8.3.2)"""
+        return (XNS.sbits(ex, v) + 7) / 8
+
+    @staticmethod
+    def twos_val(ex, s):
+        z = z_of(s)
+        n = Length(z)
+        return If(n == 0, IntVal(0), val256(z) - If(z[0] >= 128, XNS.pow2(8 * n), IntVal(0)))
 
     @staticmethod
     def int_to_bytes(ex, v, n, signed):
-        """int.to_bytes(n, 'big', signed=...): OverflowError unless v fits; result has n octets in
-        range(256) and denotes v (unsigned: val256; signed: val256 - 2**(8n) when the top bit is set)."""
+        """int.to_bytes(n, 'big', signed=...): OverflowError unless v fits, i.e. (CPython) unless
+        v == 0 or 8n >= minimal width; result has n octets in range(256) and denotes v."""
+        from pyvc.core import inr
         sg = signed if isinstance(signed, bool) else None
         if sg is None:
             raise Unsupported('symbolic signed flag')
-        p = XNS.pow2(8 * n)
-        ph = XNS.pow2(8 * n - 1)
         if not ex.choose(n >= 0, 'to_bytes.len'):
             raise _Raise(ExcV('ValueError'))
-        fits = And(v >= -ph, v < ph) if sg else And(v >= 0, v < p)
         if sg:
-            fits = If(n == 0, v == 0, fits)
+            fits = Or(v == 0, 8 * n >= XNS.sbits(ex, v))
+        else:
+            ex.assume(XNS.bit_length_axioms(v))
+            if not ex.choose(v >= 0, 'to_bytes.neg'):
+                raise _Raise(ExcV('OverflowError'))
+            fits = 8 * n >= bit_length_f(v)
         if not ex.choose(fits, 'to_bytes.fits'):
             raise _Raise(ExcV('OverflowError'))
         r = ex.fresh('to_bytes', S)
-        j = Int('tb.j')
         ex.assume(Length(r) == n)
-        ex.assume(ForAll([j], Implies(And(j >= 0, j < Length(r)), And(r[j] >= 0, r[j] <= 255))))
+        ex.assume(inr(r))
+        rv = SeqV(r, 'bytes')
         if sg:
-            ex.assume(val256(r) == If(v >= 0, v, v + p))
+            ex.assume(XNS.twos_val(ex, rv) == v)
         else:
             ex.assume(val256(r) == v)
-        return SeqV(r, 'bytes')
+        return rv
+
+    @staticmethod
+    def int_from_bytes(ex, s, signed):
+        z = z_of(s)
+        if signed:
+            return XNS.twos_val(ex, s)
+        return val256(z)
 
 
 X = XNS()
